@@ -158,6 +158,8 @@ def handleLookup (args : List String) : String :=
               else "-"
             else if mm == 0 && (sm == 2 || sm == -2) && !keys.isEmpty && sameKind lookup keys && strictlyRuns (sm == -2) keys then
               optIdx (specBinExact lookup keys)
+            else if (mm == 1 || mm == -1) && sm == 2 && !keys.isEmpty && sameKind lookup keys && strictlyRuns false keys then
+              optIdx (if mm == 1 then specBinNextLarger lookup keys else specBinNextSmaller lookup keys)
             else "-"
           | none => "-"
         s!"{encRes (xmatchFn lookup (.list rows) mm sm)} | {spec} | "
